@@ -602,11 +602,18 @@ Proof.
   apply forall2b_map_r. intros e He. apply handle_req_preserved_e. apply Hwf. now apply served_incl.
 Qed.
 
+Lemma handle_res_preserved_e : forall e, res_preserved_e e (h_res false id_body e) = true.
+Proof.
+  intro e. pose proof (handle_res_preserved e) as H. unfold res_preserved_e. destruct (flt e) eqn:F; [|exact H].
+  unfold res_preserved_b in H. rewrite !andb_true_iff in H. destruct H as (((H1 & _) & _) & H4).
+  unfold resp_of in H1. rewrite F in H1. cbn [status resp_502] in H1. now rewrite H1, H4.
+Qed.
+
 Lemma run_res_ok : forall es, c01_res_ok es (run es) = true.
 Proof.
   intros es. unfold c01_res_ok, run.
   destruct (conn_run_structure false id_body es) as (_ & H2 & _). rewrite H2.
-  apply forall2b_map_l. intros e _. apply handle_res_preserved.
+  apply forall2b_map_r. intros e _. apply handle_res_preserved_e.
 Qed.
 
 Lemma run_frm_ok : forall es,
@@ -690,6 +697,10 @@ Proof.
     specialize (H3 n Hin He). destruct (name_eqb n (s "host")); now apply strs_eqb_eq.
 Qed.
 
+(* per exchange: after an origin failure, the proxy's own 502, framed *)
+Definition res_preserved_x (e : exchange) (c : wire_res) : Prop :=
+  if flt e then c_status c = 502%N /\ c_complete c = true else res_preserved (resp_of e) c.
+
 Lemma res_preserved_b_iff : forall r c, res_preserved_b r c = true <-> res_preserved r c.
 Proof.
   intros r c. unfold res_preserved_b, res_preserved. rewrite !andb_true_iff, N.eqb_eq, body_eqb_eq.
@@ -721,11 +732,11 @@ Qed.
 
 (* the origin's reading behaviour is invisible in what the proxy does *)
 Lemma conn_run_rd_irrelevant : forall c d (f : exchange -> readmode) es,
-  conn_run c d (map (fun e => mkEx (rq e) (rs e) (f e)) es) = conn_run c d es.
+  conn_run c d (map (fun e => mkEx (rq e) (rs e) (f e) (flt e)) es) = conn_run c d es.
 Proof.
   intros c d f es. induction es as [|e es IH]; [reflexivity|].
   cbn [map conn_run].
-  assert (H : handle_model c d (mkEx (rq e) (rs e) (f e)) = handle_model c d e) by (destruct e; reflexivity).
+  assert (H : handle_model c d (mkEx (rq e) (rs e) (f e) (flt e)) = handle_model c d e) by (destruct e; reflexivity).
   rewrite H, IH. reflexivity.
 Qed.
 
@@ -743,9 +754,15 @@ Proof.
   - intros H n Hn. apply strs_eqb_eq. now apply H.
 Qed.
 
+Lemma res_preserved_e_iff : forall e c, res_preserved_e e c = true <-> res_preserved_x e c.
+Proof.
+  intros e c. unfold res_preserved_e, res_preserved_x. destruct (flt e); [|apply res_preserved_b_iff].
+  now rewrite andb_true_iff, N.eqb_eq.
+Qed.
+
 Definition c01_holds (es : list exchange) (o : conn_obs) : Prop :=
   Forall2 req_preserved_x (served es) (origin_saw o) /\
-  Forall2 res_preserved (map resp_of (served es)) (client_got o) /\
+  Forall2 res_preserved_x (served es) (client_got o) /\
   Forall2 res_framing_preserved (map resp_of (served es)) (client_got o) /\
   closed o = existsb wants_close es.
 
@@ -753,7 +770,7 @@ Lemma c01_ok_iff : forall es o, c01_ok es o = true <-> c01_holds es o.
 Proof.
   intros es o. unfold c01_ok, c01_holds, c01_req_ok, c01_res_ok, c01_frm_ok, c01_close_ok.
   rewrite !andb_true_iff.
-  rewrite (forall2b_Forall2 _ _ req_preserved_e_iff), (forall2b_Forall2 _ _ res_preserved_b_iff),
+  rewrite (forall2b_Forall2 _ _ req_preserved_e_iff), (forall2b_Forall2 _ _ res_preserved_e_iff),
     (forall2b_Forall2 _ _ res_framing_preserved_b_iff).
   rewrite eqb_true_iff. tauto.
 Qed.
@@ -764,8 +781,8 @@ Lemma c01_req_ok_iff : forall es o,
 Proof. intros. unfold c01_req_ok. apply (forall2b_Forall2 _ _ req_preserved_e_iff). Qed.
 
 Lemma c01_res_ok_iff : forall es o,
-  c01_res_ok es o = true <-> Forall2 res_preserved (map resp_of (served es)) (client_got o).
-Proof. intros. unfold c01_res_ok. apply (forall2b_Forall2 _ _ res_preserved_b_iff). Qed.
+  c01_res_ok es o = true <-> Forall2 res_preserved_x (served es) (client_got o).
+Proof. intros. unfold c01_res_ok. apply (forall2b_Forall2 _ _ res_preserved_e_iff). Qed.
 
 Lemma c01_close_ok_iff : forall es o,
   c01_close_ok es o = true <-> closed o = existsb wants_close es.
@@ -782,7 +799,7 @@ Proof. intros es o H. apply c01_req_ok_iff in H. symmetry. exact (Forall2_len _ 
 Lemma c01_res_ok_length : forall es o,
   c01_res_ok es o = true -> List.length (client_got o) = List.length (served es).
 Proof.
-  intros es o H. apply c01_res_ok_iff in H. apply Forall2_len in H. now rewrite map_length in H.
+  intros es o H. apply c01_res_ok_iff in H. apply Forall2_len in H. now symmetry.
 Qed.
 
 (* an observation that passes has no incomplete (unframeable) response in it *)
@@ -790,7 +807,8 @@ Lemma c01_res_ok_all_complete : forall es o,
   c01_res_ok es o = true -> Forall (fun c => c_complete c = true) (client_got o).
 Proof.
   intros es o H. apply c01_res_ok_iff in H.
-  induction H as [|r c rs cs Hrc _ IH]; constructor; [|exact IH]. apply Hrc.
+  induction H as [|r c rs cs Hrc _ IH]; constructor; [|exact IH].
+  unfold res_preserved_x in Hrc. destruct (flt r); apply Hrc.
 Qed.
 
 Lemma c01_frm_ok_iff : forall es o,
@@ -821,7 +839,7 @@ Proof. intros es H. apply c01_frm_ok_iff. now apply run_frm_ok. Qed.
 (* a 304 whose origin states a Content-Length reaches the client without it *)
 Definition cl_304 : list exchange :=
   [mkEx (mkReq (s "GET") OriginForm (s "/") false [(s "Host", s "ORIGIN")] (mkBody 0 0) RqNone)
-        (Resp (mkResp 304 false [(s "Content-Length", s "99")] (mkBody 0 0) FBodiless)) ReadAll].
+        (Resp (mkResp 304 false [(s "Content-Length", s "99")] (mkBody 0 0) FBodiless)) ReadAll false].
 
 Lemma cl_304_refutes : c01_frm_ok cl_304 (run cl_304) = false.
 Proof. vm_compute. reflexivity. Qed.
@@ -829,23 +847,30 @@ Proof. vm_compute. reflexivity. Qed.
 (* a 204 in answer to POST gets a Content-Length: 0 the origin never sent *)
 Definition post_204 : list exchange :=
   [mkEx (mkReq (s "POST") OriginForm (s "/") false [(s "Host", s "ORIGIN")] (mkBody 0 0) RqCL)
-        (Resp (mkResp 204 false [] (mkBody 0 0) FBodiless)) ReadAll].
+        (Resp (mkResp 204 false [] (mkBody 0 0) FBodiless)) ReadAll false].
 
 Lemma post_204_refutes : c01_frm_ok post_204 (run post_204) = false.
 Proof. vm_compute. reflexivity. Qed.
 
 (* responses and the close behaviour need no guard at all *)
 Lemma run_responses : forall es,
-  Forall2 res_preserved (map resp_of (served es)) (client_got (run es)).
+  Forall2 res_preserved_x (served es) (client_got (run es)).
 Proof.
-  intro es. apply (forall2b_Forall2 _ _ res_preserved_b_iff). apply run_res_ok.
+  intro es. apply (forall2b_Forall2 _ _ res_preserved_e_iff). apply run_res_ok.
+Qed.
+
+(* an origin failure does not close the client connection by itself, and the
+   request has been handed to the origin like any other *)
+Lemma fault_keeps_connection : forall e, flt e = true -> wants_close e = req_asks_close (rq e).
+Proof.
+  intros e F. unfold wants_close, resp_of. rewrite F. unfold res_asks_close. cbn. now rewrite orb_false_r.
 Qed.
 
 (* ---------------------------------------------------------------- refutations *)
 
 Definition ex_get (hs : list header) (shs : list header) (f : framing) : exchange :=
   mkEx (mkReq (s "GET") OriginForm (s "/") false ((s "Host", s "ORIGIN") :: hs) (mkBody 0 0) RqNone)
-       (Resp (mkResp 200 false shs (mkBody 20 7) f)) ReadAll.
+       (Resp (mkResp 200 false shs (mkBody 20 7) f)) ReadAll false.
 
 (* two User-Agent fields: the second value is lost *)
 Definition two_ua : list exchange :=
